@@ -47,6 +47,8 @@ def run(tier, seed, work, replay):
                     if tier == "quick" and am in ("nolifetime", "refuse", "noremove", "noremove_once") and not (p == "p256" and m == "password"):
                         continue
                     cases.append({"pref": p, "mode": m, "agent": a, "agentmode": am})
+        # a user whose name makes the agent labels long (keymaster-ed25519-<28 characters>)
+        cases.append({"pref": "p256", "mode": "password", "agent": True, "agentmode": "ok", "user": "alice.with.quite.a.long.name"})
         cp = work.path("cases.ndjson")
         E.write_ndjson(cp, cases)
         epath, _ = E.run_harness(cbin, PROP, work, cases=cp, env={"VERIF_SERVERS": ready}, cwd=os.path.join(E.REPO, "cmd/keymaster"), timeout=5400)
